@@ -14,3 +14,9 @@ package status
 //@ func NodeStatus.RequestNetworkIndex
 //@   requires n != nil
 //@   panics
+
+//@ # the cache only ever holds statuses built by NewNodeStatus (LoadOrStore with a non-nil value): a hit is non-nil
+//@ func Cache.Get
+//@   trusted
+//@   modifies nothing
+//@   ensures result1 ==> result0 != nil
